@@ -44,3 +44,9 @@ Theorem C06_never_surfaces_an_earlier_error :
   forall (l : layout) (keep : bool) (h : list hop), Forall (fun b => b = true) (hfails (hinit l keep) h).
 Proof. exact never_surfaces_stale_error. Qed.
 Print Assumptions C06_never_surfaces_an_earlier_error.
+
+(* (5) the death of an idle worker is reported by exactly one call (the stored error is taken out before it is
+   raised), and a worker that served an apply task is back in map mode for the next call: read off the source *)
+Theorem C06_source_facts : idle_death_reported_once = true /\ apply_mode_reset_per_task = true /\ start_workers_resets = true.
+Proof. exact (conj idle_death_spec (conj apply_mode_spec start_workers_resets_spec)). Qed.
+Print Assumptions C06_source_facts.
